@@ -85,6 +85,9 @@ func (o *Out) Progress(cell string) {
 	atomic.AddInt64(&o.beat, 1)
 }
 
+// BeatPtr lets an explorer count executions as progress.
+func (o *Out) BeatPtr() *int64 { return &o.beat }
+
 // watchdog: a worker that makes no progress for StuckAfter of real time is stuck
 // in code the scheduler does not control (an un-instrumented spin or a real
 // block). That is not a verdict: the worker reports a harness error naming the
